@@ -24,6 +24,9 @@ const (
 func init() {
 	models["fmt.Errorf"] = modelNewError
 	models["errors.New"] = modelNewError
+	for _, n := range []string{"New", "Errorf", "Wrap", "Wrapf", "WithStack", "WithMessage"} {
+		models["github.com/pkg/errors."+n] = modelNewError
+	}
 	models["fmt.Sprintf"] = func(f *Frame, st *State, e *ast.CallExpr, recv *Term, args []*Term, sig *types.Signature) []*Term {
 		return []*Term{f.c.fresh("sprintf", SStr)}
 	}
@@ -127,6 +130,10 @@ func init() {
 		indexes: map[string]indexSpec{"id_prefix": {kind: "prefix"}, "session": {kind: "fieldeq", field: "Session"}}})
 	addTable(&tableSpec{name: "tombstones", rowPkg: statePkg, rowType: "Tombstone", keyField: "Key", emptyKeyFails: true,
 		indexes: map[string]indexSpec{"id_prefix": {kind: "prefix"}}})
+	addTable(&tableSpec{name: "connect-ca-config", rowPkg: structsPkg, rowType: "CAConfiguration", single: true})
+	addTable(&tableSpec{name: "connect-ca-roots", rowPkg: structsPkg, rowType: "CARoot", keyField: "ID"})
+	addTable(&tableSpec{name: "connect-ca-builtin", rowPkg: structsPkg, rowType: "CAConsulProviderState", keyField: "ID"})
+	addTable(&tableSpec{name: "autopilot-config", rowPkg: structsPkg, rowType: "AutopilotConfig", single: true})
 	addTable(&tableSpec{name: "index", rowPkg: statePkg, rowType: "IndexEntry", keyField: "Key", lower: true})
 	addTable(&tableSpec{name: "sessions", rowPkg: structsPkg, rowType: "Session", keyField: "ID", lower: true,
 		indexes: map[string]indexSpec{"node": {kind: "fieldeq", field: "Node", lower: true}, "id_prefix": {kind: "prefix"}}})
@@ -222,12 +229,17 @@ func (f *Frame) tableWF(st *State, t *tableSpec) {
 	al := c.heapGet(st, "ALLOC", ArrSort(SInt, SBool))
 	k := c.bvar("k", SStr)
 	r := Select(tb, k)
-	w := st.clone()
-	w.pc = TTrue
-	c.inQuant++
-	key := f.rowKey(w, t, r)
-	c.inQuant--
-	body := Forall([]*Term{k}, Implies(Ne(r, IntLit(0)), And(Select(al, r), Eq(key, k))), r)
+	var body *Term
+	if t.single {
+		body = Forall([]*Term{k}, Implies(Ne(r, IntLit(0)), Select(al, r)), r)
+	} else {
+		w := st.clone()
+		w.pc = TTrue
+		c.inQuant++
+		key := f.rowKey(w, t, r)
+		c.inQuant--
+		body = Forall([]*Term{k}, Implies(Ne(r, IntLit(0)), And(Select(al, r), Eq(key, k))), r)
+	}
 	if t.emptyKeyFails {
 		body = And(body, Eq(Select(tb, Sym("strEmpty", SStr)), IntLit(0)))
 	}
@@ -370,7 +382,8 @@ func (f *Frame) memdbLookup(st *State, e *ast.CallExpr, args []*Term) (*Term, *T
 	switch ix.kind {
 	case "id":
 		if t.single {
-			return Select(f.tableArr(st, t), Sym("strEmpty", SStr)), failed
+			f.tableWF(st, t)
+			return Select(f.tableArr(st, t), Sym("strEmpty", SStr)), TFalse
 		}
 		v, at, ok := f.varArg(st, e, packed, 2, 0)
 		if !ok {
@@ -451,7 +464,10 @@ func modelInsert(f *Frame, st *State, e *ast.CallExpr, recv *Term, args []*Term,
 		k = f.rowKey(st, t, obj)
 	}
 	tb := f.tableArr(st, t)
-	failedT := Or(failed, Eq(k, Sym("strEmpty", SStr)))
+	failedT := failed
+	if !t.single {
+		failedT = Or(failed, Eq(k, Sym("strEmpty", SStr)))
+	}
 	c.heapSet(st, tableHeap(t.name), Ite(failedT, tb, Store(tb, k, obj)))
 	return []*Term{Ite(failedT, f.someError(), IfaceNil)}
 }
